@@ -579,3 +579,33 @@ pub mod pl {
     pub use super::PlCondvar as Condvar;
     pub use super::PlMutex as Mutex;
 }
+
+/// The private index arithmetic, exported for differential testing against the model.
+pub mod export {
+    use crate::countedindex::CountedIndex;
+    pub use crate::countedindex::{get_valid_wrap, is_tagged, past, rm_tag};
+    use std::sync::atomic::Ordering::Relaxed;
+
+    pub fn matches_previous(loaded: usize, wrap: u64, val: usize) -> bool {
+        CountedIndex::from_usize(loaded, wrap)
+            .load_transaction(Relaxed)
+            .matches_previous(val)
+    }
+
+    pub fn get_previous(start: usize, by: u64) -> usize {
+        CountedIndex::get_previous(start, by)
+    }
+
+    pub fn slot_of(loaded: usize, wrap: u64) -> isize {
+        CountedIndex::from_usize(loaded, wrap)
+            .load_transaction(Relaxed)
+            .get()
+            .0
+    }
+
+    pub fn wait_check(seq: usize, slot_flag: usize, writers: usize) -> bool {
+        let at = super::AtomicUsize::new(slot_flag);
+        let wc = super::AtomicUsize::new(writers);
+        crate::wait::check(seq, &at, &wc)
+    }
+}
